@@ -144,8 +144,8 @@ __CPROVER_ensures((g_cas_won && g_n > 0 && !g_on_activate_fails && g_dep_err == 
       && g_pushed == ((g_ret1 > 0 && g_ret1 + g_env_dec == g_n) ? 1u : 0u) && v->_waiting_num == (long)(g_n - g_ret1 - g_env_dec)))
 ;
 //@loop Vertex_activate 1
-//@  __CPROVER_assigns(finished, g_it, g_ret1, g_activated_deps, g_dep_err)
-//@  __CPROVER_loop_invariant(g_it <= g_n && g_it_end == g_n && g_activated_deps == g_it && finished == (long)g_ret1 && g_ret1 <= g_it && g_dep_err == 0 && g_stored && g_env_dec == 0)
+//@  __CPROVER_assigns(@l3:finished@, g_it, g_ret1, g_activated_deps, g_dep_err)
+//@  __CPROVER_loop_invariant(g_it <= g_n && g_it_end == g_n && g_activated_deps == g_it && @l3:finished@ == (long)g_ret1 && g_ret1 <= g_it && g_dep_err == 0 && g_stored && g_env_dec == 0)
 //@  __CPROVER_decreases(g_n - g_it)
 //@end
 _Bool Vertex_ready(struct Vertex *v, struct Dep *d)
